@@ -128,6 +128,42 @@ def srbNet (w depth : Nat) : KNet :=
 def srbPokes (i : SrbIn) : List (Nat × Int) :=
   [(1, (i.leftIn : Int)), (2, (i.rightIn : Int)), (5, (i.shiftLeft : Int)), (6, (i.shiftRight : Int))]
 
+
+/-- Stack_ShiftRegister(din, dout, push, pop, empty, full, depth), depth ≥ 1: Constant zerow, the ShiftRegisterBidirectional
+    netlist with left_in = din, right_in = zerow, left_out = pre_dout, right_out = rout, shift_left = pop,
+    shift_right = push, and Reg dout (enable = pop, d = pre_dout).  Wires din=1 zerow=2 pre_dout=3 rout=4 pop=5 push=6
+    shift/shift=7 shift/q_k=8+k shift/rd_k=8+depth+k dout=8+2·depth.  Combinational leaf 0 = Constant, 1+k = SRB leaf k. -/
+def stackKind (depth k : Nat) : Kind := if k = 0 then .const 0 2 else srbKind depth (k - 1)
+
+def stackReg (depth k : Nat) : RLeaf :=
+  if k < depth then srbReg depth k
+  else { hasR := false, hasE := true, rv := 0, d := 3, e := 5, r := 0, q := 8 + 2 * depth }
+
+def stackNet (w depth : Nat) : KNet :=
+  { wd := fun x => if x = 5 ∨ x = 6 ∨ x = 7 then 1 else w,
+    kinds := (List.range (depth + 4)).map (stackKind depth),
+    regs := (List.range (depth + 1)).map (stackReg depth),
+    order := List.range (depth + 4) }
+
+def stackPokes (i : StackIn) : List (Nat × Int) := [(1, (i.din : Int)), (6, (i.push : Int)), (5, (i.pop : Int))]
+
+
+
+/-- PipelinePhase(reset, ins, outs): n = number of lanes; wires reset=1 in_j=2+j out_j=2+n+j; one Reg with reset per lane,
+    no combinational leaf -/
+def pipeReg (n j : Nat) : RLeaf := { hasR := true, hasE := false, rv := 0, d := 2 + j, e := 0, r := 1, q := 2 + n + j }
+
+def pipeNet (ws : List Nat) : KNet :=
+  { wd := fun x => if x = 1 then 1 else if x < 2 + ws.length then ws.getD (x - 2) 1 else ws.getD (x - 2 - ws.length) 1,
+    kinds := [],
+    regs := (List.range ws.length).map (pipeReg ws.length),
+    order := [] }
+
+def pipePokes (n : Nat) (i : PipeIn) : List (Nat × Int) :=
+  (1, (i.reset : Int)) :: (List.range n).map fun j => (2 + j, ((i.ins.getD j 0 : Nat) : Int))
+
+def pipeOuts (n : Nat) : List Nat := (List.range n).map fun j => 2 + n + j
+
 /-! ### rendering for the comparison with the live dump -/
 def nats (l : List Nat) : String := ",".intercalate (l.map toString)
 
@@ -147,6 +183,7 @@ def kindStr : Kind → String
   | .sub a b r => s!"Sub  : {nats [a, b]} > {r}"
   | .mul a b r => s!"Mul  : {nats [a, b]} > {r}"
   | .range a hi lo r => s!"Range {hi};{lo} : {nats [a]} > {r}"
+  | _ => "(kind not used by the C09 netlists)"
 
 def kindWires : Kind → List Nat
   | .and2 a b r | .or2 a b r | .sub a b r | .mul a b r => [a, b, r]
@@ -155,6 +192,7 @@ def kindWires : Kind → List Nat
   | .mux2 sel s0 s1 r => [sel, s0, s1, r]
   | .const _ r => [r]
   | .addc a b ci r => [a, b, ci, r]
+  | _ => []
 
 def regStr (R : RLeaf) : String :=
   s!"Reg {R.rv};{if R.hasE then 1 else 0};{if R.hasR then 1 else 0} : {nats [R.e, R.r, R.d]} > {R.q}"
